@@ -111,6 +111,66 @@ def run_lines(exe, lines, what, ctx):
 def secs(line):
     p = line.split('|'); return [s.split() for s in p]
 
+# ------------------------------------------------------------------------------------------------ implementation-side predicate
+# The property's own conditions evaluated on what PGSImpulseSolver::solve RETURNS (pi, updated verr = rhs - [A+D] pi, converged flag), for
+# every generated case that reports converged = true.  "Velocity" below is the returned verr of a row, i.e. the constraint-space velocity
+# error that is left after the impulse.  Converged means RMS(enforced row errors) < tol, measured inside the last sweep, so a row that
+# the solver enforces can be left with a velocity of a modest multiple of tol*sqrt(p): VTOL_FACTOR is 30x the largest ratio measured on
+# the unchanged tree (0.85 over 12 seeds; see 'measured_max_velocity_over_tol_sqrtp' in the evidence).
+VTOL_FACTOR = 30.0
+def pgs_output_predicate(P, tol, pi, verr, stats, vtol=None):
+    """-> None or (clause, detail).  Clauses named '...-inactive-side' concern rows the solver has projected (contact off, row at a bound)."""
+    p = max(1, len(P['part'])); ftol = 1e-9; strict_dir = vtol is not None
+    if vtol is None: vtol = VTOL_FACTOR * tol * math.sqrt(p) + 1e-12
+    piE = P['piE']
+    def note(v): stats['v'] = max(stats['v'], abs(v) / (tol * math.sqrt(p)))
+    def vec_fric(what, fk, L):
+        f = [pi[i] for i in fk]; v = [verr[i] for i in fk]
+        nf = math.sqrt(sum(x * x for x in f)); nv = math.sqrt(sum(x * x for x in v))
+        if nf > L + ftol: return (what + '-outside-cone', '|pi_t| = %g > mu*|pi_n| = %g on rows %s' % (nf, L, fk))
+        if nf < L - max(ftol, 1e-7 * L):            # strictly inside the limit: must stick
+            note(nv)
+            if nv > vtol: return (what + '-neither-stick-nor-slide', 'rows %s: |pi_t| = %g is strictly inside the limit mu*|pi_n| = %g but the tangential velocity after the impulse is %s (|v| = %g > %g)' % (fk, nf, L, v, nv, vtol))
+        else:                                       # on the limit: sliding, the impulse must not push along the remaining slip the wrong way
+            d = sum(x * y for x, y in zip(f, v))
+            stats['slide'] += 1
+            if d < -(vtol * nf + 1e-12):
+                stats['slide_wrong_way'] += 1
+                # at a fixed point of the sweep the sliding impulse is a positive multiple of (pi + sor*v/Arr), hence never against v
+                if strict_dir: return (what + '-slides-the-wrong-way', 'rows %s: |pi_t| = %g is on the limit but pi_t . v = %g < 0 (pi_t = %s, remaining slip v = %s)' % (fk, nf, d, f, v))
+        return None
+    for rows in P['unc']:
+        for r_ in rows:
+            note(verr[r_])
+            if abs(verr[r_]) > vtol: return ('unconditional-row', 'row %d: velocity %g after the impulse (> %g)' % (r_, verr[r_], vtol))
+    for ty, nk, sign, fk, mu in P['con']:
+        if ty != 2 and pi[nk] != 0: return ('nonparticipating-normal-impulse', 'contact normal %d (type %d) got unknown impulse %g (Known normals carry exactly piExpand)' % (nk, ty, pi[nk]))
+        if ty == 0 and any(pi[i] != 0 for i in fk): return ('observing-friction-impulse', 'observing contact got friction impulse on rows %s' % fk)
+        if ty == 2:
+            if sign * pi[nk] > ftol: return ('normal-pulls', 'contact normal %d: sign*pi = %g > 0' % (nk, sign * pi[nk]))
+            if pi[nk] != 0:
+                note(verr[nk])
+                if abs(verr[nk]) > vtol: return ('normal-complementarity', 'active contact normal %d (pi = %g) is left with normal velocity %g' % (nk, pi[nk], verr[nk]))
+            elif sign * verr[nk] < -vtol: return ('normal-complementarity-inactive-side', 'inactive contact normal %d (pi = 0) is left with a velocity %g that a push would remove' % (nk, verr[nk]))
+        if ty != 0 and fk:
+            bad = vec_fric('contact-friction(%s)' % ('participating' if ty == 2 else 'known'), fk, mu * abs(pi[nk] + piE[nk]))
+            if bad: return bad
+    for ix, lb, ub in P['bnd']:
+        if pi[ix] < lb - ftol or pi[ix] > ub + ftol: return ('bounded-out-of-bounds', 'row %d: pi = %g outside [%g, %g]' % (ix, pi[ix], lb, ub))
+        if lb + ftol < pi[ix] < ub - ftol:
+            note(verr[ix])
+            if abs(verr[ix]) > vtol: return ('bounded-complementarity', 'row %d strictly inside its bounds is left with velocity %g' % (ix, verr[ix]))
+        elif ub - lb > 2 * ftol:
+            if pi[ix] >= ub - ftol and verr[ix] < -vtol: return ('bounded-complementarity-inactive-side', 'row %d at its upper bound with velocity %g asking for less' % (ix, verr[ix]))
+            if pi[ix] <= lb + ftol and verr[ix] > vtol: return ('bounded-complementarity-inactive-side', 'row %d at its lower bound with velocity %g asking for more' % (ix, verr[ix]))
+    for fk, kn, mu in P['stl']:
+        bad = vec_fric('state-limited-friction', fk, mu * kn)
+        if bad: return bad
+    for fk, nk, mu in P['cnl']:
+        bad = vec_fric('constraint-limited-friction', fk, mu * math.sqrt(sum(pi[i] ** 2 for i in nk)))
+        if bad: return bad
+    return None
+
 def pgs_correspondence(ctx, exe, drv, n):
     r = ctx.rng; probs = []; lines = []; hist = {}
     for i in range(n):
@@ -123,6 +183,7 @@ def pgs_correspondence(ctx, exe, drv, n):
     o1 = run_lines(exe, lines, 'C++ probe', ctx); o2 = run_lines(drv, lines, 'OCaml driver', ctx)
     if o1 is None or o2 is None: return None
     dis = []; nconv = 0; nontrivial = 0; worst = 0.0; notwf = 0; conds_compared = 0; its_hist = {}
+    npred = 0; pred_fail = []; pstats = {'v': 0.0, 'slide': 0, 'slide_wrong_way': 0}
     for (P, maxit, tol), l, a, b in zip(probs, lines, o1, o2):
         sa, sb = secs(a), secs(b)
         if sa[0][0] != 'OK' or sb[0][0] != 'OK': dis.append((l, a, b)); continue
@@ -146,11 +207,55 @@ def pgs_correspondence(ctx, exe, drv, n):
             conds_compared += sum(len(e) for e in exp)
         if sb[4][0] != '1': notwf += 1
         if not ok: dis.append((l, a, b))
+        if sa[0][1] == '1' and P['part']:
+            npred += 1
+            bad = pgs_output_predicate(P, tol, pa, va, pstats)
+            if bad: pred_fail.append((bad[0], bad[1], l, a))
     ctx.add_cases(len(lines), nontrivial, [{'case': lines[0][:200], 'cxx': o1[0][:200], 'model': o2[0][:200]}])
     ctx.extra.setdefault('correspondence', {})['pgs'] = {'cases': len(lines), 'disagreements': len(dis), 'converged': nconv, 'pi_rtol': PI_RTOL,
         'measured_max_rel_difference_of_pi': worst, 'conditions_compared_exactly': conds_compared, 'problems_not_well_formed': notwf,
         'model_iterations_histogram': dict(sorted(its_hist.items(), key=lambda kv: int(kv[0]))), 'input_distribution': dict(sorted(hist.items()))}
     ctx.trusted.add('correspondence harness harness/C44_probe.cpp (-DNDEBUG) + ocaml/C44_drv.ml (double NumOps): converged flag and conditions exact, impulses %g relative' % PI_RTOL)
+    # (A) SETTLED outputs: the same problems with tol = 0 (the loop never stops early) and 300 / 301 sweeps; where the two answers agree the
+    # implementation has reached a fixed point of ITS OWN sweep, and there every clause must hold strictly (for the model this is the
+    # theorem C44_pgs_fixed_point_satisfies_conditions; here it is evaluated on the implementation alone, model not involved)
+    l300 = [fmt('PGS', 300, 0.0, P) for (P, mi, t) in probs]; l301 = [fmt('PGS', 301, 0.0, P) for (P, mi, t) in probs]
+    s300 = run_lines(exe, l300, 'C++ probe (300 sweeps)', ctx); s301 = run_lines(exe, l301, 'C++ probe (301 sweeps)', ctx)
+    nsettled = 0; settled_fail = []; sstats = {'v': 0.0, 'slide': 0, 'slide_wrong_way': 0}
+    if s300 is not None and s301 is not None:
+        for (P, mi, t), l, a, b in zip(probs, l301, s300, s301):
+            sa, sb = secs(a), secs(b)
+            if sa[0][0] != 'OK' or sb[0][0] != 'OK' or not P['part']: continue
+            pa = [float.fromhex(x) for x in sa[1]]; pb = [float.fromhex(x) for x in sb[1]]; vb = [float.fromhex(x) for x in sb[2]]
+            if any(x != x for x in pa + pb) or max(abs(x - y) for x, y in zip(pa, pb)) > 1e-11 * max([1.0] + [abs(x) for x in pb]): continue
+            nsettled += 1
+            bad = pgs_output_predicate(P, 1.0, pb, vb, sstats, vtol=1e-7)
+            if bad: settled_fail.append((bad[0], bad[1], l, b))
+    nknownfric = sum(1 for (P, mi, t) in probs if any(c[0] == 1 and c[3] and c[4] > 0 for c in P['con']))
+    ctx.extra['correspondence']['pgs_output_predicate'] = {'converged_cases_evaluated': npred, 'failures': len(pred_fail),
+        'cases_with_a_known_frictional_contact_and_expansion_impulse': nknownfric, 'velocity_tolerance_factor': VTOL_FACTOR,
+        'measured_max_velocity_over_tol_sqrtp': pstats['v'], 'sliding_friction_sets': pstats['slide'],
+        'sliding_sets_pushing_against_the_remaining_slip_recorded_not_decided': pstats['slide_wrong_way']}
+    ctx.extra['correspondence']['pgs_output_predicate'].update({'settled_cases_evaluated_strictly': nsettled, 'settled_failures': len(settled_fail),
+        'settled_sliding_friction_sets': sstats['slide'], 'settled_sliding_sets_pushing_against_the_remaining_slip': sstats['slide_wrong_way']})
+    seenp = set()
+    for clause, detail, l, a in settled_fail:
+        if clause in seenp or len(seenp) >= 3: continue
+        seenp.add(clause)
+        ctx.broken.append(('predicate:C44:PGS-settled:' + clause, detail[:400]))
+        ctx.report('impl:pgs-settled:' + clause, 'PGSImpulseSolver::solve has settled (300 and 301 sweeps agree) on an answer that violates the clause "%s": %s' % (clause, detail),
+                   {'failing_input': l, 'implementation_output': a[:2000], 'replay_case': l, 'failures_of_this_clause': sum(1 for q in settled_fail if q[0] == clause)})
+    # (B) outputs returned with converged = true.  The convergence test of PGSImpulseSolver::solve only looks at the rows it enforced in the
+    # last sweep, so it can stop while a projected row (contact switched off, row at a bound) still asks for an impulse: known finding; every
+    # other clause is strict.
+    seenp = set()
+    for clause, detail, l, a in pred_fail:
+        key = 'pgs-converged-while-projected-rows-unsatisfied' if clause.endswith('-inactive-side') else 'impl:pgs-output:' + clause
+        if key in seenp or len(seenp) >= 3: continue
+        seenp.add(key)
+        if key not in ctx.known: ctx.broken.append(('predicate:C44:PGS:' + clause, detail[:400]))
+        ctx.report(key, 'PGSImpulseSolver::solve reports converged but its output violates the clause "%s": %s' % (clause, detail),
+                   {'failing_input': l, 'implementation_output': a[:2000], 'replay_case': l, 'failures_of_this_clause': sum(1 for q in pred_fail if q[0] == clause)})
     if notwf: ctx.broken.append(('generator:C44', '%d generated problems are not well formed (steps_wfb false): the invariants theorem would not apply' % notwf))
     if dis:
         l, a, b = dis[0]
@@ -307,5 +412,13 @@ def run(ctx):
     ctx.finish()
 
 def replay(ctx, path):
+    """bin/check C44 --replay FILE: re-run the recorded case line on the implementation (and, for PGS lines, on the model)"""
     r = json.load(open(path))
     print('replay of %s: key=%s\n  %s' % (path, r.get('key'), r.get('what', r.get('no_longer_checks'))))
+    case = r.get('replay_case') or (r.get('failing_input') if str(r.get('failing_input', '')).split(' ')[0] in ('PGS', 'PLUS', 'PGSB', 'PLUSB') else None)
+    if case:
+        sides = build_sides(ctx)
+        if sides:
+            rc, o, e = sh([sides[0]], input=case + '\n'); print('  implementation: ' + o.strip()[:3000])
+            if case.split(' ')[0] in ('PGS', 'PGSB'):
+                rc, o, e = sh([sides[1]], input=case + '\n'); print('  model:          ' + o.strip()[:3000])
